@@ -523,6 +523,26 @@ def r10_16(ctx: Ctx, rule: str = "R10.16") -> None:
     ctx.floor(rule, n, 6, "listing interfaces")
 
 
+def r10_18(ctx: Ctx, rule: str = "R10.18") -> None:
+    """the `name` of the archive handle is a label of any type: None (BytesIO), a number (a handle made from a descriptor), bytes (opened by a
+    bytes path).  Where _real_get_contents derives the name of a nameless member from it, the text functions (os.path.basename / splitext)
+    are applied under an `isinstance(<it>, str)` fact only - otherwise opening the archive dies with TypeError, or the listing holds a bytes
+    name that getinfo() and extraction cannot use."""
+    f = shared.szf(ctx, "_real_get_contents")
+    uses = [c for c in q.calls(f) if (dotted(c.func) or "") in ("os.path.basename", "os.path.splitext", "os.path.split", "os.path.dirname") and c.args and q.derives_from(
+        f, c.args[0], lambda v: isinstance(v, ast.Attribute) and v.attr in ("filename", "name") and isinstance(v.value, (ast.Name, ast.Attribute)), depth=4)]
+    if not uses:
+        ctx.ok(rule, "_real_get_contents derives no member name from the handle's name")
+        return
+    for c in uses:
+        inner = [x for x in ast.walk(c) if isinstance(x, ast.Name)]
+        typed = any(pol and isinstance(cd, ast.Call) and dotted(cd.func) == "isinstance" and len(cd.args) == 2 and norm(cd.args[1]) == "str"
+                    and any(norm(cd.args[0]) == n_.id for n_ in inner) for cd, pol in q.facts_at(f, c))
+        ctx.check(typed, rule, f, c, "the handle's name is used as text only when it is text",
+                  f"`{norm(c)[:80]}` takes the archive handle's `name` for a str: for a handle made from a descriptor (name = a number) SevenZipFile() raises TypeError and nothing can "
+                  "be listed; for one opened by a bytes path the listing holds a bytes name that getinfo() and extractall() refuse", construct="handle name used as text")
+
+
 def r10_14(ctx: Ctx, rule: str = "R10.14") -> None:
     """the listing of a write session describes what was ARCHIVED: Worker.archive stores the member's `uncompressed` size on every path - the
     size that went into the stream (the last entry of substreamsinfo.unpacksizes) for a member with a stream, 0 for one without.  _make_file_info
@@ -572,6 +592,7 @@ def run(ctx: Ctx) -> None:
     r10_13(ctx)
     r10_15(ctx)
     r10_16(ctx)
+    r10_18(ctx)
     r10_17(ctx)
     r10_12(ctx)
     r10_11(ctx)
